@@ -83,10 +83,16 @@ structure Fit2 where
   deg2 : ℕ
   beta : ℕ → ℕ → ℚ
 
+/-- `Σ_a Σ_b β_ab · b1_a · b2_b`: a coefficient matrix contracted with two vectors of
+basis values. -/
+def tensorEval (n1 n2 : ℕ) (β : ℕ → ℕ → ℚ) (b1 b2 : ℕ → ℚ) : ℚ :=
+  ∑ a ∈ range n1, ∑ b ∈ range n2, β a b * b1 a * b2 b
+
 /-- Value of the tensor-product spline at one location. -/
 def evalSpline2 (f : Fit2) (q1 q2 : ℚ) : ℚ :=
-  ∑ a ∈ range (nFun f.nseg1 f.deg1), ∑ b ∈ range (nFun f.nseg2 f.deg2),
-    f.beta a b * bspline f.dmin1 f.dmax1 f.nseg1 f.deg1 a q1 * bspline f.dmin2 f.dmax2 f.nseg2 f.deg2 b q2
+  tensorEval (nFun f.nseg1 f.deg1) (nFun f.nseg2 f.deg2) f.beta
+    (fun a => bspline f.dmin1 f.dmax1 f.nseg1 f.deg1 a q1)
+    (fun b => bspline f.dmin2 f.dmax2 f.nseg2 f.deg2 b q2)
 
 /-- `PSplines.predict([x₁, x₂])` on the product grid `Q₁ × Q₂` (specification). -/
 def predict2 (f : Fit2) (Q1 Q2 : List ℚ) : List (List ℚ) :=
@@ -109,6 +115,24 @@ def smoothAt (fits : List Fit1) (points : List ℚ) : List (List ℚ) := fits.ma
 then `(C + Cᵀ)/2`. -/
 def covAt (f : Fit2) (points : List ℚ) : List (List ℚ) :=
   points.map fun p => points.map fun q => (evalSpline2 f p q + evalSpline2 f q p) / 2
+
+/-- Basis values at the query points, tabulated once per point (what the driver runs;
+proved equal to `predict2` / `covAt` in FDAProofs/Lemmas/Predict.lean). -/
+def basisTab (dmin dmax : ℚ) (nseg deg : ℕ) (Q : List ℚ) : List (Array ℚ) :=
+  Q.map fun q => tabA (nFun nseg deg) fun a => bspline dmin dmax nseg deg a q
+
+def predict2Tab (f : Fit2) (Q1 Q2 : List ℚ) : List (List ℚ) :=
+  let B1 := basisTab f.dmin1 f.dmax1 f.nseg1 f.deg1 Q1
+  let B2 := basisTab f.dmin2 f.dmax2 f.nseg2 f.deg2 Q2
+  B1.map fun b1 => B2.map fun b2 =>
+    tensorEval (nFun f.nseg1 f.deg1) (nFun f.nseg2 f.deg2) f.beta (rd b1) (rd b2)
+
+def covAtTab (f : Fit2) (points : List ℚ) : List (List ℚ) :=
+  let B1 := basisTab f.dmin1 f.dmax1 f.nseg1 f.deg1 points
+  let B2 := basisTab f.dmin2 f.dmax2 f.nseg2 f.deg2 points
+  (B1.zip B2).map fun p => (B1.zip B2).map fun q =>
+    (tensorEval (nFun f.nseg1 f.deg1) (nFun f.nseg2 f.deg2) f.beta (rd p.1) (rd q.2) +
+      tensorEval (nFun f.nseg1 f.deg1) (nFun f.nseg2 f.deg2) f.beta (rd q.1) (rd p.2)) / 2
 
 /-- Σ|terms| of the evaluation (scale of the float tolerance): truncated-power terms of
 every basis function, weighted by `|β_j|`. -/
